@@ -443,3 +443,35 @@ _add("C20", "Added: (3) GenerateLengths for EVERY frequency table (counts ascend
      "paths, every source script (Prefix/WriterThms.v). Model limits found by the proofs: gen_lengths is only faithful "
      "for distinct symbols (the harness uses distinct symbols); GeneratePrefixes panics in Go for lengths > 27 where the "
      "model has no panic outcome (no caller reaches it).")
+
+_add("C05", "Added (third session): THE PROPERTY FOR EVERY HISTORY - xflate_roundtrip (XFlate/RoundTripAll.v, composition in "
+     "XFlate/RT*.v, 7 files by a proof sub-agent from statements fixed beforehand in XFlate/RoundTripStmt.v): for every "
+     "compressor satisfying contract K1, every accepted configuration and every successful sequence of Write / Flush (three "
+     "modes; invalid modes refused without effect) / Close, the sink is opened by the Reader model with a record table that "
+     "is honest for the concatenation of the data written; with the C07 refinement every Seek/Read/Close history then "
+     "behaves as a ReadSeeker over that data (xflate_written_streams_read_back). Ingredients: Writer invariant (the sink is a "
+     "list of segments = chunks + index block), uvarint/CRC/index payload round trip, meta stream round trip, ReverseSearch "
+     "finds the footer, the backward index walk, meta blocks as empty DEFLATE blocks. Size premises: sink < 2^40 bytes (the "
+     "meta decoder MODEL's loop budget), data < 2^62. K1 is evaluated by the extracted model on every chunk the real "
+     "compress/flate produces (xk1).")
+_add("C06", "Added: THE PROPERTY FOR EVERY HISTORY - xflate_is_deflate (XFlate/RoundTripAll.v): under K1 the sink after a "
+     "successful Close, for any configuration and schedule, is ONE complete DEFLATE stream for the RFC 1951 model, decoding "
+     "to exactly the data written, consumed to the last byte; no size premise.")
+_add("C01", "Added: the sliding window at implementation level (Window/Dict.v mirrors flate/dict_decoder.go incl. lazy growth, "
+     "wrap-around, both phases of WriteCopy, TryWriteCopy, recycled buffers; run against the real dictDecoder on scripted "
+     "histories incl. out-of-protocol ones, WDICT) refines the LZ77 specification for every window size, recycled buffer and "
+     "protocol-respecting history (dict_refines); 53 generated-table obligations now include the BUILT fixed decoders "
+     "decLit/decDist (every bit pattern decodes as the model's fixedLitTree/fixedDistTree).")
+_add("C02", "Added: the brotli sliding window at implementation level (Window/DictBr.v; WDICTBR correspondence) refines the LZ77 "
+     "specification (br_refines); every DERIVED lookup table the Go decoder decodes with - iacLUT, distShortLUT, "
+     "distLongLUT[0..3], the context P1/P2 LUTs (all 4x256x256 points), maxRLERanges, simple-code lengths, the four fixed "
+     "prefix decoders and their code lists - is proved equal, by kernel computation regenerated on every run, to the "
+     "tabulation of the function the RFC model decodes with (Gen/TablesOK.v: 53 lemmas; 31 library mutations were shown to "
+     "break a named lemma each).")
+_add("C08", "Added: window memory - the buffer never exceeds max(recycled capacity or 4096, min(window size, 4 x bytes "
+     "produced)), flate and brotli (dict_memory, br_memory): a short stream never allocates the declared window.")
+_add("C14", "Added: for the recycled flate window (Reset keeps the history buffer) decoding is independent of the buffer's "
+     "previous contents and capacity for every command stream whose distances stay inside its own output "
+     "(reset_equals_fresh, recycled_irrelevant; outside that protocol stale bytes do leak - stale_leak - so the Reader's "
+     "distance check is what separates streams). The check now also runs Writers created between Close and Reset of "
+     "another Writer, first destinations that fail having accepted nothing, and Reader reuse over multi-index streams.")
